@@ -245,6 +245,11 @@ func (g *graphMemoizer) Objects(ctx context.Context, s *node.Node, p *predicate.
 	for o := range c {
 		select {
 		case <-ctx.Done():
+			// Keep draining the wrapped driver, otherwise its lookup never finishes.
+			go func() {
+				for range c {
+				}
+			}()
 			return errors.New("context cancelled")
 		case objs <- o:
 			// memoize the object.
@@ -322,6 +327,11 @@ func (g *graphMemoizer) Subjects(ctx context.Context, p *predicate.Predicate, o 
 	for s := range c {
 		select {
 		case <-ctx.Done():
+			// Keep draining the wrapped driver, otherwise its lookup never finishes.
+			go func() {
+				for range c {
+				}
+			}()
 			return errors.New("context cancelled")
 		case subs <- s:
 			// memoize the object.
@@ -389,6 +399,11 @@ func (g *graphMemoizer) PredicatesForSubject(ctx context.Context, s *node.Node, 
 	for p := range c {
 		select {
 		case <-ctx.Done():
+			// Keep draining the wrapped driver, otherwise its lookup never finishes.
+			go func() {
+				for range c {
+				}
+			}()
 			return errors.New("context cancelled")
 		case prds <- p:
 			// memoize the object.
@@ -456,6 +471,11 @@ func (g *graphMemoizer) PredicatesForObject(ctx context.Context, o *triple.Objec
 	for p := range c {
 		select {
 		case <-ctx.Done():
+			// Keep draining the wrapped driver, otherwise its lookup never finishes.
+			go func() {
+				for range c {
+				}
+			}()
 			return errors.New("context cancelled")
 		case prds <- p:
 			// memoize the object.
@@ -523,6 +543,11 @@ func (g *graphMemoizer) PredicatesForSubjectAndObject(ctx context.Context, s *no
 	for p := range c {
 		select {
 		case <-ctx.Done():
+			// Keep draining the wrapped driver, otherwise its lookup never finishes.
+			go func() {
+				for range c {
+				}
+			}()
 			return errors.New("context cancelled")
 		case prds <- p:
 			// memoize the object.
@@ -590,6 +615,11 @@ func (g *graphMemoizer) TriplesForSubject(ctx context.Context, s *node.Node, lo 
 	for t := range c {
 		select {
 		case <-ctx.Done():
+			// Keep draining the wrapped driver, otherwise its lookup never finishes.
+			go func() {
+				for range c {
+				}
+			}()
 			return errors.New("context cancelled")
 		case trpls <- t:
 			// memoize the object.
@@ -657,6 +687,11 @@ func (g *graphMemoizer) TriplesForPredicate(ctx context.Context, p *predicate.Pr
 	for t := range c {
 		select {
 		case <-ctx.Done():
+			// Keep draining the wrapped driver, otherwise its lookup never finishes.
+			go func() {
+				for range c {
+				}
+			}()
 			return errors.New("context cancelled")
 		case trpls <- t:
 			// memoize the object.
@@ -724,6 +759,11 @@ func (g *graphMemoizer) TriplesForObject(ctx context.Context, o *triple.Object, 
 	for t := range c {
 		select {
 		case <-ctx.Done():
+			// Keep draining the wrapped driver, otherwise its lookup never finishes.
+			go func() {
+				for range c {
+				}
+			}()
 			return errors.New("context cancelled")
 		case trpls <- t:
 			// memoize the object.
@@ -791,6 +831,11 @@ func (g *graphMemoizer) TriplesForSubjectAndPredicate(ctx context.Context, s *no
 	for t := range c {
 		select {
 		case <-ctx.Done():
+			// Keep draining the wrapped driver, otherwise its lookup never finishes.
+			go func() {
+				for range c {
+				}
+			}()
 			return errors.New("context cancelled")
 		case trpls <- t:
 			// memoize the object.
@@ -858,6 +903,11 @@ func (g *graphMemoizer) TriplesForPredicateAndObject(ctx context.Context, p *pre
 	for t := range c {
 		select {
 		case <-ctx.Done():
+			// Keep draining the wrapped driver, otherwise its lookup never finishes.
+			go func() {
+				for range c {
+				}
+			}()
 			return errors.New("context cancelled")
 		case trpls <- t:
 			// memoize the object.
@@ -945,6 +995,11 @@ func (g *graphMemoizer) Triples(ctx context.Context, lo *storage.LookupOptions, 
 	for t := range c {
 		select {
 		case <-ctx.Done():
+			// Keep draining the wrapped driver, otherwise its lookup never finishes.
+			go func() {
+				for range c {
+				}
+			}()
 			return errors.New("context cancelled")
 		case trpls <- t:
 			// memoize the object.
